@@ -49,6 +49,17 @@ CLAIMED['C18'] = dict(tech='check-before-use dataflow on every __getitem__, sibl
          'null-view and writable-request refusals dominate every write to the view.',
     ref='DESIGN.md §4 C18')
 
+CLAIMED['C14'] = dict(tech='provenance matching of matrix-fill stores, constant-table extraction, who-may-call on stream primitives, must-pass-through state reset, relational summary of buffer compaction, field-plumbing by variable names',
+    text='Static (part): at the 8+ matrix-filling sites the row index is the enumerate counter of the value vector and the column the as_index of the paired symbol; JASPAR row order [A,C,G,T]; duplicate-symbol '
+         'rejection; only read_until/read_line reach the stream (so records are a function of the byte stream, whatever the chunking); state reset dominates every returned record; compaction keeps buffer[start..]; '
+         'Record/Motif fields and the TRANSFAC tag table are not crossed. Acceptance of arbitrary well-formed text by the nom grammar is not decided.',
+    ref='DESIGN.md §4 C14')
+CLAIMED['C15'] = dict(tech='panic-site inventory over the call graph reachable from the 8 reader entry points with re-verified discharge rules; reachability of Incomplete-producing parsers; table agreement; loop-exit analysis',
+    text='Static: every Assert terminator, panicking call (unwrap/expect/panic!/unreachable!/unimplemented!) and may-panic std call (slice/str indexing, split_at, copy_within) in the 119 workspace bodies '
+         'reachable from the readers is listed and must be discharged by a proof rule that is re-evaluated on every run (guards, enumerate-of-same, symbol-index, nonempty-by-producer, table agreement, '
+         'suffix-length, buffer-offset invariant); undischarged sites are violations. No nom streaming parser reachable; read loops have EOF exits.',
+    ref='DESIGN.md §4 C15')
+
 NA = {
     'C11': 'numeric agreement of a tabulated distribution with the exact tail probability: quantifies over run-time floating-point values; no sound static argument in reach (DESIGN.md §6)',
     'C12': 'bounds computed probability ranges by exact tail probabilities at a granularity: run-time numerics, no structural necessary condition (DESIGN.md §6)',
